@@ -214,6 +214,11 @@ type seqScenario struct {
 var (
 	seqInitOne = [2]string{"main=c0 pushed (A1,E1 on the server); local main=c0+{a.bin->A2}: ONE new object", "git push origin <cur>; commit a.bin=A2"}
 	seqInitTwo = initUnpushed // main=c0{a.bin->A1, e.bin->E1}, nothing pushed: TWO new objects
+	// worlds in which incomplete pushes are allowed and one object of the pushed range is nowhere while another is present
+	seqInitInc = [2]string{"c0 pushed; local main=c0+{a.bin->A2}+{b.bin->B1}; A2 deleted from the local store (nowhere); lfs.allowincompletepush=true: one object NOWHERE, one new present object",
+		"git push origin <cur>; commit a.bin=A2; commit b.bin=B1; rm-object A2; toggle lfs.allowincompletepush"}
+	seqInitIncRefs = [2]string{initDiverged[0] + "; A2 deleted from the local store (nowhere); lfs.allowincompletepush=true: the object of main NOWHERE, the object of f present",
+		initDiverged[1] + "; rm-object A2; toggle lfs.allowincompletepush"}
 )
 
 // seqOp derives the designated push from a push operation of the alphabet: small retry budget, sequential transfers,
@@ -239,9 +244,10 @@ func withCfg(base opDef, kv ...string) opDef {
 
 func (e *envT) mkSeqScenario(base snap) *seqScenario {
 	sc := &seqScenario{Name: "faultseq", Base: &scenario{Name: "faultseq"}}
-	e.mkInits(sc.Base, base, [][2]string{seqInitOne, seqInitTwo})
+	e.mkInits(sc.Base, base, [][2]string{seqInitOne, seqInitTwo, seqInitInc, seqInitIncRefs})
 	ops := remoteOps(0, true, false)
 	gitpush, lfspush := pick(ops, "git push origin <cur>")[0], pick(ops, "git lfs push origin <cur>")[0]
+	gitpush2, lfspush2 := pick(ops, "git push origin main f")[0], pick(ops, "git lfs push origin main f")[0]
 	add := func(what string, init int, op opDef, mr int, verify bool, f int) {
 		v := ""
 		if verify {
@@ -261,6 +267,9 @@ func (e *envT) mkSeqScenario(base snap) *seqScenario {
 		add("one new object", 0, gitpush, 1, true, 2)
 		add("two new objects", 1, gitpush, 1, false, 2)
 		add("one new object", 0, lfspush, 1, false, 2)
+		// (appended: the indices of the designated pushes above are part of recorded replay files)
+		add("one object nowhere + one new present object, incomplete pushes allowed", 2, gitpush, 1, false, 2)
+		add("one object nowhere + one new present object, incomplete pushes allowed", 2, lfspush, 1, false, 2)
 	} else {
 		sc.K = 12
 		add("one new object", 0, gitpush, 1, false, 3)
@@ -273,6 +282,12 @@ func (e *envT) mkSeqScenario(base snap) *seqScenario {
 		add("two new objects", 1, gitpush, 1, true, 2)
 		add("two new objects", 1, gitpush, 2, false, 2)
 		add("two new objects, one per batch", 1, withCfg(gitpush, "lfs.transfer.batchsize=1"), 1, false, 2)
+		add("one object nowhere + one new present object, incomplete pushes allowed", 2, gitpush, 1, false, 3)
+		add("one object nowhere + one new present object, incomplete pushes allowed", 2, gitpush, 2, false, 2)
+		add("one object nowhere + one new present object, incomplete pushes allowed", 2, gitpush, 1, true, 2)
+		add("one object nowhere + one new present object, incomplete pushes allowed", 2, lfspush, 1, false, 2)
+		add("two refs in one push, the object of the first nowhere, the object of the second present, incomplete pushes allowed", 3, gitpush2, 1, false, 2)
+		add("two refs in one push, the object of the first nowhere, the object of the second present, incomplete pushes allowed", 3, lfspush2, 1, false, 2)
 	}
 	return sc
 }
